@@ -5,7 +5,7 @@ from .props import PROPS
 
 ROOT = gen.ROOT
 EVID = os.environ.get("VERIF_EVIDENCE_DIR") or os.path.join(ROOT, "evidence")
-OUT = os.path.join(ROOT, "out")
+OUT = os.environ.get("VERIF_OUT") or os.path.join(ROOT, "out")
 
 
 def scan_assumptions(text):
@@ -35,7 +35,47 @@ def load_known():
 POW2_HELPER = re.compile(r"^[A-Za-z_0-9]+/((?:NonZero)?Pow2Usize)(?: \(checked_num!\))?::(\w+)")
 
 
-def in_scope(prop, failure):
+def compute_reach(prop, results):
+    """Extracted functions the property depends on: those matching the property's `roots` and everything they call,
+    transitively, inside the same unit (by name: an over-approximation).  None when the property declares no roots."""
+    roots = PROPS[prop].get("roots")
+    if not roots:
+        return None
+    from . import rustlex as rl
+    reach = set()
+    for r in results:
+        ex = r.extractor
+        if not ex:
+            continue
+        fns = [f for f in ex.functions if f.get("name")]
+        idents = {}
+        for f in fns:
+            try:
+                src = open(os.path.join(gen.REPO, f["file"])).read()[f["byte_range"][0]:f["byte_range"][1]]
+                idents[f["label"]] = set(t.text for t in rl.code_tokens(rl.tokenize(src)) if t.kind == "ident")
+            except Exception:
+                idents[f["label"]] = None       # unknown: depends on everything
+        work = [f["label"] for f in fns if any(re.search(p, f["label"]) for p in roots)]
+        seen = set(work)
+        while work:
+            lab = work.pop()
+            ids = idents.get(lab)
+            for g in fns:
+                if g["label"] not in seen and (ids is None or g["name"] in ids):
+                    seen.add(g["label"]); work.append(g["label"])
+        for lab in seen:
+            reach.add((r.unit, lab))
+    return reach
+
+
+def is_extracted(results, unit, label):
+    for r in results:
+        if r.unit == unit and r.extractor:
+            return any(f["label"] == label for f in r.extractor.functions)
+    return False
+
+
+def in_scope(prop, failure, reach=None, results=()):
     kinds = PROPS[prop].get("kinds")
     if kinds and not any(failure.get("kind", "").startswith(k) for k in kinds):
         return False
@@ -46,9 +86,13 @@ def in_scope(prop, failure):
     m = POW2_HELPER.match(ob)
     if m:
         return "%s::%s" % (m.group(1), m.group(2)) in PROPS[prop].get("pow2", ())
+    # a failure inside an extracted function belongs to the property only if the property's root functions reach that function
+    unit = failure.get("unit") or ob.split("/")[0]
+    fn = failure.get("function") or ""
+    if reach is not None and is_extracted(results, unit, fn):
+        return (unit, fn) in reach
     if not scope:
         return True
-    fn = failure.get("function") or ""
     for pat in scope:
         if re.search(pat, ob.split(": ")[0]):
             return True
@@ -147,14 +191,21 @@ def run_property(prop, tier, seed):
     notes = []
     undecided = []
     violations = []
+    reach = compute_reach(prop, results)
     for r in results:
         if r.status == "undecided" or r.status == "error":
             undecided.extend("%s: %s" % (r.unit, p) for p in r.problems)
         for f in r.failures:
-            if in_scope(prop, f):
+            if in_scope(prop, dict(f, unit=r.unit), reach, results):
                 violations.append(dict(f, unit=r.unit))
             else:
                 notes.append("out-of-scope failure (belongs to another property): " + f["obligation"])
+        for lab, reason in r.degraded:
+            d = {"obligation": "%s/%s/degraded" % (r.unit, lab), "function": lab, "unit": r.unit, "kind": (PROPS[prop].get("kinds") or ("degraded",))[0]}
+            if in_scope(prop, d, reach, results):
+                undecided.append("%s: %s is not verified (contract assumed, body skipped): %s" % (r.unit, lab, reason))
+            else:
+                notes.append("function outside this property's dependency cone not verified: %s/%s (%s)" % (r.unit, lab, reason))
     for k in kani_results:
         if k["status"] == "fail":
             violations.append({"obligation": "kani/%s" % k["harness"], "kind": "kani", "function": k["harness"],
@@ -272,6 +323,8 @@ def main(argv):
             if "-v" in argv: print(f["rendered"])
         for p in r.problems:
             print("  PROBLEM", p)
+        for lab, reason in r.degraded:
+            print("  DEGRADED %s: %s" % (lab, reason))
         if r.canary: print("  canary", r.canary)
         if r.extractor: print("  rules", r.extractor.rule_counts)
         return {"pass": 0, "fail": 1}.get(r.status, 2)
